@@ -422,8 +422,8 @@ class LAX_UNIQUE_ITEMS:
 import z3
 from pyvc import sym, Unsupported
 from pyvc.models import RecordModel as _RecordModel
-from pyvc.sym import V, VObj, VBool, VDict as _VDict, VFunc as _VFunc, VNone as _VNone, VRec as _VRec
-from pyvc.contract import specfn, Const, Rec, NONE
+from pyvc.sym import V, VObj, VBool, VInt, VDict as _VDict, VFunc as _VFunc, VNone as _VNone, VRec as _VRec
+from pyvc.contract import specfn, audit, Const, Rec, NONE
 from pyvc import contract as _C2
 
 _dropped_as_redundant = {}
@@ -431,9 +431,12 @@ _dropped_as_redundant = {}
 
 class _ConstraintsObjModel(_RecordModel):
     """a Constraints instance as validate_constraints sees it: origin_type, and the three consistency checks
-    valid_types / valid_bounds / valid_length as TRUSTED interfaces: each returns or raises ConfigError, and may remove
-    an entry of the dict it is given only when that entry is redundant (min_length=0, max_length next to an equal
-    length, ...): the removal is recorded in a ghost set so the caller's contract can tell it from a silent drop."""
+    valid_types / valid_bounds / valid_length as interfaces: each returns or raises ConfigError, and may remove an entry
+    of the dict it is given only when that entry is redundant (min_length=0, max_length next to an equal length, ...);
+    the removal is recorded in a ghost set so the caller's contract can tell it from a silent drop.  What backs the
+    interface: valid_length is proved against `for every length n the declaration accepts n exactly when what is left
+    accepts n` (contract VALID_LENGTH); valid_types / valid_bounds never write to the dict (audit
+    C02_type_and_bound_checks_drop_nothing)."""
 
     def getattr(self, ex, rec, name, node):
         if name in ("valid_types", "valid_bounds", "valid_length"):
@@ -457,6 +460,7 @@ class _ConstraintsObjModel(_RecordModel):
 
 
 def _install_constraints_obj(world):
+    world.inline.add(("utype/utils/functional.py", "pop"))          # three-line helper: inlined, not assumed
     world.models["ConstraintsObj"] = _ConstraintsObjModel(world, F, "Constraints", dict(origin_type=NONE))
 
 
@@ -513,3 +517,132 @@ class VALIDATE_CONSTRAINTS:
     @staticmethod
     def setup(ex, frame):
         ex.redundant_keys = {}
+
+
+# ------------------------------------------------------------------------------------ valid_length (C02): consistency check of the length family
+
+def _len_sem(d, n):
+    """what a declaration {length, min_length, max_length} (enumerated dict, symbolic presence) demands of a length n"""
+    cs = []
+    for k, rel in (("length", lambda v: n == v), ("min_length", lambda v: n >= v), ("max_length", lambda v: n <= v)):
+        e = d.items.get(k)
+        if e is not None:
+            p, v = e
+            vt = v.t if hasattr(v, "t") and v.t.sort() == z3.IntSort() else None
+            if vt is None:
+                raise Unsupported("length bound of a non-int kind")
+            cs.append(z3.Implies(p, rel(vt)))
+    return z3.And(*cs) if cs else z3.BoolVal(True)
+
+
+@specfn("snapd")
+def _snapd(ex, fr, d):
+    """immutable snapshot of an enumerated dict (for old())"""
+    c = _VDict()
+    for k, (p, v) in d.items.items():
+        c.items[k] = (p, v)
+    return c
+
+
+@specfn("same_length_semantics")
+def _same_length_semantics(ex, fr, before, after):
+    """for EVERY length n >= 0: the declaration as given accepts n exactly when what is left of it accepts n"""
+    n = z3.Int("n!len")
+    return VBool(z3.ForAll([n], z3.Implies(n >= 0, _len_sem(before, n) == _len_sem(after, n))))
+
+
+@specfn("some_length_fits")
+def _some_length_fits(ex, fr, d):
+    n = z3.Int("n!fit")
+    return VBool(z3.Exists([n], z3.And(n >= 0, _len_sem(d, n))))
+
+
+@specfn("declares_nonpositive_max")
+def _declares_nonpositive_max(ex, fr, d):
+    e = d.items.get("max_length")
+    if e is None:
+        return VBool(False)
+    return VBool(z3.And(e[0], e[1].t <= 0))
+
+
+@specfn("declares_negative")
+def _declares_negative(ex, fr, d):
+    cs = [z3.And(p, v.t < 0) for k, (p, v) in d.items.items()]
+    return VBool(z3.Or(*cs) if cs else z3.BoolVal(False))
+
+
+_LEN_KEYS = ("length", "min_length", "max_length")
+
+
+def _bounds_dict(present):
+    def mk(ex):
+        d = _VDict()
+        for k in present:
+            d.items[k] = (z3.BoolVal(True), VInt(z3.Int("declared_%s" % k)))
+        d.origin = "param:bounds"
+        return d
+    return Const(mk, name="{%s}" % ",".join(present))
+
+
+def _vl_cases():
+    out = {}
+    for mask in range(2 ** len(_LEN_KEYS)):
+        present = [k for i, k in enumerate(_LEN_KEYS) if mask >> i & 1]
+        out["+".join(present) or "none"] = dict(self=Rec("ConstraintsObj", origin_type=NONE), bounds=_bounds_dict(present))
+    return out
+
+
+@contract(F, "Constraints.valid_length", props=["C02"])
+class VALID_LENGTH:
+    """the consistency check of length / min_length / max_length may drop an entry of the declaration ONLY when it is
+    redundant: for every length n, the declaration as given accepts n exactly when what is left accepts n (all integer
+    bounds, every presence combination); it rejects (ConfigError) only a declaration no length can satisfy, a negative
+    bound, or max_length <= 0."""
+    cases = _vl_cases()
+    concrete_dicts = True
+    returns = {"only_redundant_entries_are_dropped": "same_length_semantics(old(snapd(bounds)), bounds)",
+               "accepted_declarations_are_satisfiable": "some_length_fits(old(snapd(bounds)))"}
+    raises = {"ConfigError": {"only_an_unsatisfiable_or_degenerate_declaration":
+                              "not some_length_fits(old(snapd(bounds))) or declares_negative(old(snapd(bounds))) or "
+                              "declares_nonpositive_max(old(snapd(bounds)))"}}
+    only_raises = ["ConfigError"]
+    modifies = ["bounds"]
+    assumes = ["the declared bounds are ints (another kind is rejected by the isinstance tests: not among the cases)",
+               "no origin type (the trailing block only warns about types without __len__)"]
+
+
+@audit("C02_type_and_bound_checks_drop_nothing", props=["C02"])
+def _checks_drop_nothing():
+    """validate_constraints hands the declaration to valid_types, valid_bounds and valid_length.  valid_length is under
+    contract (it drops only redundant entries).  The other two must not drop anything: syntactic obligation -- their
+    bodies contain no store into, deletion from, or mutator call on the dict they are given."""
+    import ast as _ast
+    import os as _os
+    from pyvc import REPO
+    tree = _ast.parse(open(_os.path.join(REPO, F)).read())
+    rows = []
+    cls = [n for n in tree.body if isinstance(n, _ast.ClassDef) and n.name == "Constraints"]
+    fns = {m.name: m for m in (cls[0].body if cls else []) if isinstance(m, _ast.FunctionDef)}
+    mut = {"pop", "popitem", "clear", "update", "setdefault", "__setitem__", "__delitem__"}
+    for name in ("valid_types", "valid_bounds"):
+        fn = fns.get(name)
+        if fn is None:
+            rows.append(("found:%s" % name, False, "Constraints.%s not found" % name))
+            continue
+        param = fn.args.args[1].arg if len(fn.args.args) > 1 else None
+        bad = []
+        for n in _ast.walk(fn):
+            if isinstance(n, (_ast.Assign, _ast.AugAssign, _ast.Delete)):
+                tgts = n.targets if not isinstance(n, _ast.AugAssign) else [n.target]
+                for t in tgts:
+                    if isinstance(t, _ast.Subscript) and isinstance(t.value, _ast.Name) and t.value.id == param:
+                        bad.append("line %d: %s" % (n.lineno, _ast.unparse(t)))
+                    if isinstance(t, _ast.Name) and t.id == param:
+                        bad.append("line %d: rebinding %s" % (n.lineno, param))
+            if isinstance(n, _ast.Call):
+                if isinstance(n.func, _ast.Attribute) and isinstance(n.func.value, _ast.Name) and n.func.value.id == param and n.func.attr in mut:
+                    bad.append("line %d: %s" % (n.lineno, _ast.unparse(n)[:50]))
+                if isinstance(n.func, _ast.Name) and n.func.id == "pop" and n.args and isinstance(n.args[0], _ast.Name) and n.args[0].id == param:
+                    bad.append("line %d: %s" % (n.lineno, _ast.unparse(n)[:50]))
+        rows.append(("drops_no_declared_constraint:%s" % name, not bad, "; ".join(bad) or "Constraints.%s only reads `%s`" % (name, param)))
+    return rows
